@@ -1069,16 +1069,40 @@ func (s *sys) stepAndLog(ev []uint64) bool {
 	return true
 }
 
+// corpusMotifs: the corpus histories, used as PREFIXES of a share of the random histories (a random cut of a random
+// corpus history is replayed first, then generation continues at random from the situation it reached): the corner
+// cases that were worth writing down are then also explored in their neighbourhood, not only replayed verbatim.
+var corpusMotifs []hist.H
+
 func runRandom(t *testing.T, w *hist.W, h int) {
 	r := hist.Rng(h)
 	synctest.Test(t, func(t *testing.T) {
 		cfg := randomCfg(r)
+		var prefix [][]uint64
+		if len(corpusMotifs) > 0 && r.IntN(6) == 0 {
+			m := corpusMotifs[r.IntN(len(corpusMotifs))]
+			if len(m.Cfg) >= 3 && m.Cfg[0] <= 3 && len(m.Evs) > 0 {
+				cfg = append([]uint64{}, m.Cfg...)
+				prefix = m.Evs[:1+r.IntN(len(m.Evs))]
+			}
+		}
 		s := newSys(w, cfg)
 		s.nkeys = 2 + r.IntN(2)
 		defer s.teardown()
 		w.Begin(fmt.Sprintf("r%d", h), cfg)
+		for _, ev := range prefix {
+			if !s.stepAndLog(append([]uint64{}, ev...)) {
+				break
+			}
+		}
+		if prefix != nil {
+			w.Count("random_with_corpus_prefix", 1)
+		}
 		steps := 10 + r.IntN(70)
 		maxInst := 4 + r.IntN(9)
+		if prefix != nil {
+			maxInst += len(s.insts)
+		}
 		for k := 0; k < steps; k++ {
 			ev := s.gen(r, maxInst)
 			if ev == nil || !s.stepAndLog(ev) {
@@ -1124,7 +1148,8 @@ func TestKeyed(t *testing.T) {
 		}
 		return
 	}
-	for _, h := range hist.LoadCorpus(*hist.Corpus) {
+	corpusMotifs = hist.LoadCorpus(*hist.Corpus)
+	for _, h := range corpusMotifs {
 		runFixed(t, w, h.ID, h.Cfg, h.Evs)
 		w.Count("corpus", 1)
 	}
